@@ -284,6 +284,13 @@ def run(r: core.Run, mode, prop_module, what, known_ops_key="ops"):
         core.run_driver(["query", "spec"], stdin_path=base + ".ops", out_path=base + ".spec")
         ops, impl = core.read_lines(base + ".ops"), core.read_lines(base + ".impl")
         model, spec = core.read_lines(base + ".model"), core.read_lines(base + ".spec")
+        # the WHERE-clause hooks: tokens through the model parser (regenerated grammar), routed by the regenerated
+        # hook table to the model hooks; the clauses they build against the clauses the real hooks built
+        core.run_driver(["hooks"], stdin_path=base + ".ops", out_path=base + ".hooks")
+        hooks = core.read_lines(base + ".hooks")
+        hook_mism = [i for i, o in enumerate(ops) if o.startswith("Q") and i < len(hooks) and hooks[i] not in ("same", "-")]
+        r.notes["hooks_model"] = {"statements": sum(1 for i, o in enumerate(ops) if o.startswith("Q") and i < len(hooks) and hooks[i] == "same"),
+                                  "disagreements": len(hook_mism)}
         nontriv = set()
         mism = []
         rowhist = Counter()
@@ -319,6 +326,10 @@ def run(r: core.Run, mode, prop_module, what, known_ops_key="ops"):
             i = mism[0]
             tie = core.TieBroken(f"query correspondence ({mode}): model and implementation disagree on {len(mism)} queries",
                                  f"first: {text_of(ops[i])!r} impl={impl[i][:300]!r} model={model[i][:300]!r}")
+        elif hook_mism:
+            i = hook_mism[0]
+            tie = core.TieBroken(f"hooks correspondence ({mode}): the model of the WHERE-clause hooks and the real hooks build different "
+                                 f"pattern clauses for {len(hook_mism)} statements", f"first: {text_of(ops[i])!r}: {hooks[i][:600]}")
     except core.TieBroken as e:
         tie = e
 
